@@ -16,20 +16,20 @@ variable (env : Env) (impl : FmtImpl) (cfg : Cfg) (fuel : Nat)
 theorem store_unchanged_when_off (inst schema : Json) (b : Option Nat) (st : RState)
     (h : st.cacheRemote = false) :
     (eval env impl cfg fuel inst schema b st).st.store = st.store
-    ∧ (eval env impl cfg fuel inst schema b st).st.cacheRemote = false := by
-  sorry
+    ∧ (eval env impl cfg fuel inst schema b st).st.cacheRemote = false :=
+  pres_eval (rOff env) impl cfg fuel inst schema b st h
 
 /-- The same for whole histories of operations on one validator. -/
 theorem store_unchanged_when_off_hist (schema : Json) (st : RState) (ops : List Op)
     (h : st.cacheRemote = false) :
-    (runHist env impl cfg fuel schema st ops).2.store = st.store := by
-  sorry
+    (runHist env impl cfg fuel schema st ops).2.store = st.store :=
+  (pres_runHist (rOff env) impl cfg fuel schema ops st h).1
 
 /-- Documents already in the store stay there, unchanged (the store only grows). -/
 theorem store_grows_only (inst schema : Json) (b : Option Nat) (st : RState) (k : Str) (v : Json)
     (h : Json.lookup k st.store = some v) :
-    Json.lookup k (eval env impl cfg fuel inst schema b st).st.store = some v := by
-  sorry
+    Json.lookup k (eval env impl cfg fuel inst schema b st).st.store = some v :=
+  pres_eval (rGrow env) impl cfg fuel inst schema b st k v h
 
 /-- The retrieval log only grows, the attempt counter counts it, and `cache_remote`/the memo
     capacity never change. -/
@@ -37,8 +37,8 @@ theorem log_grows_only (inst schema : Json) (b : Option Nat) (st : RState) :
     ∃ l, (eval env impl cfg fuel inst schema b st).st.fetchLog = st.fetchLog ++ l
       ∧ (eval env impl cfg fuel inst schema b st).st.clock = st.clock + l.length
       ∧ (eval env impl cfg fuel inst schema b st).st.cacheRemote = st.cacheRemote
-      ∧ (eval env impl cfg fuel inst schema b st).st.memoCap = st.memoCap := by
-  sorry
+      ∧ (eval env impl cfg fuel inst schema b st).st.memoCap = st.memoCap :=
+  pres_eval (rLog env) impl cfg fuel inst schema b st
 
 /-- the invariant behind "fetched at most once": with caching on, every successfully retrieved
     URI is in the store under its normalised key, and no two successful retrievals share a key -/
@@ -51,14 +51,14 @@ def FetchInv (env : Env) (st : RState) : Prop :=
     invariant of every evaluation … -/
 theorem fetch_inv_preserved (inst schema : Json) (b : Option Nat) (st : RState)
     (hc : st.cacheRemote = true) (hinv : FetchInv env st) :
-    FetchInv env (eval env impl cfg fuel inst schema b st).st := by
-  sorry
+    FetchInv env (eval env impl cfg fuel inst schema b st).st :=
+  (pres_eval (rInv env) impl cfg fuel inst schema b st hc hinv).1
 
 /-- … and of every history of operations, starting from a fresh resolver. -/
 theorem fetch_at_most_once (schema : Json) (st : RState) (ops : List Op)
     (hc : st.cacheRemote = true) (hfresh : st.fetchLog = []) :
-    ((( runHist env impl cfg fuel schema st ops).2.fetchLog.filter (·.2)).map (fun p => env.urinorm p.1)).Nodup := by
-  sorry
+    ((( runHist env impl cfg fuel schema st ops).2.fetchLog.filter (·.2)).map (fun p => env.urinorm p.1)).Nodup :=
+  (pres_runHist (rInv env) impl cfg fuel schema ops st hc (fetchInvS_fresh env st hfresh)).1.2
 
 /-- A document present in the store (under the normalised URI) is served locally: resolving any
     URL into it performs no retrieval. -/
@@ -66,7 +66,8 @@ theorem served_locally (url u frag k : Str) (st : RState) (doc : Json)
     (hd : env.urldefrag url = some (u, frag)) (hn : env.urinorm u = some k)
     (hs : Json.lookup k st.store = some doc) :
     (resolveFromUrl env url st).2 = st ∧ (resolveFromUrl env url st).1 = fragRes doc frag := by
-  sorry
+  unfold resolveFromUrl
+  simp only [hd, hn, hs, and_self]
 
 /-- Any failure of a handler surfaces as `RefResolutionError`, and a failed retrieval caches nothing. -/
 theorem handler_failure_is_refResolution (url u frag k : Str) (st : RState)
@@ -75,12 +76,13 @@ theorem handler_failure_is_refResolution (url u frag k : Str) (st : RState)
     (resolveFromUrl env url st).1 = .raise .refResolution
     ∧ (resolveFromUrl env url st).2.store = st.store
     ∧ (resolveFromUrl env url st).2.memo = st.memo := by
-  sorry
+  unfold resolveFromUrl resolveRemote
+  simp only [hd, hn, hs, hf, and_self]
 
 /-- Exceptions are not memoised: after a failing `resolve` the memo is unchanged. -/
 theorem failure_not_memoised (ref : Str) (st : RState) (e : Exc)
     (h : (resolve env ref st).1 = .raise e) :
-    (resolve env ref st).2.memo = st.memo := by
-  sorry
+    (resolve env ref st).2.memo = st.memo :=
+  resolve_raise_memo env ref st e h
 
 end JS.Props.C15
